@@ -3667,7 +3667,10 @@ class CacheDataset(Dataset):
 
     def __getitem__(self, item):
         if isinstance(item, str):
-            item = self.keys().index(item)
+            try:
+                item = self.keys().index(item)
+            except ValueError:
+                raise KeyErrorCloseMatches(item, self.keys()) from None
 
         if isinstance(item, numbers.Integral):
             try:
